@@ -301,6 +301,23 @@ def fn_drift(rs, x):
     return a, s.getvalue()
 
 
+def parse_drift(text, flags):
+    """'%f (%s%s) %f (%s%s)' -> [first, second] = [num, den, k, l] (printed with 6 decimals)."""
+    import re
+    from fractions import Fraction
+
+    m = re.match(r"\s*(-?[\d.]+(?:e[-+]?\d+)?) \(([xyz])([xyz])\) (-?[\d.]+(?:e[-+]?\d+)?) \(([xyz])([xyz])\)\s*$", text)
+    if not m:
+        flags["exact"] = False
+        z = dict(num=0, den=1, k=0, l=0)
+        return dict(first=z, second=z)
+    out = []
+    for v, a, b in ((m.group(1), m.group(2), m.group(3)), (m.group(4), m.group(5), m.group(6))):
+        fr = Fraction(v).limit_denominator(10 ** 6)
+        out.append(dict(num=fr.numerator, den=fr.denominator, k="xyz".index(a), l="xyz".index(b)))
+    return dict(first=out[0], second=out[1])
+
+
 def fn_expand(rs, x):
     with _quiet():
         return FCM.compact_fc_to_full_fc(rs.prim, f64(x))
@@ -353,6 +370,7 @@ def execute(rs, route, level, x, via_api=True):
     elif route == "drift":
         out, text = fn_drift(rs, x)
         obs["out"] = project(out, 1, fl)
+        obs["shown"] = parse_drift(text, fl)
     elif route == "expand":
         out = fn_expand(rs, x)
         obs["out"] = project(out, 1, fl)
